@@ -110,7 +110,8 @@ theorem next_gapless_eq (h : D.WF) (v : Int) (hv : v ∈ D.vals) : T.next_gaples
   simp only [T.next_gapless, nextGapless, cast_of_inRange _ h.bits_pos _ hr, cast_of_inRange _ h.bits_pos _ (maxC_inRange D h)]
   by_cases hm : v = maxC D
   · simp [hm]
-  · simp only [hm, decide_false, Bool.false_eq_true, if_false, add]
+  · have hm' : ¬ maxC D = v := fun e => hm e.symm
+    simp only [hm, hm', decide_false, Bool.false_eq_true, if_false, add]
     have : D.repr.InRange (v + 1) ↔ ¬ (v + 1 > D.repr.hi) := by
       unfold Prim.InRange at *; constructor <;> intro hh <;> omega
     by_cases hh : v + 1 > D.repr.hi
@@ -123,7 +124,8 @@ theorem nextBack_gapless_eq (h : D.WF) (v : Int) (hv : v ∈ D.vals) : T.nextBac
   simp only [T.nextBack_gapless, nextBackGapless, cast_of_inRange _ h.bits_pos _ hr, cast_of_inRange _ h.bits_pos _ (minC_inRange D h)]
   by_cases hm : v = minC D
   · simp [hm]
-  · simp only [hm, decide_false, Bool.false_eq_true, if_false, sub]
+  · have hm' : ¬ minC D = v := fun e => hm e.symm
+    simp only [hm, hm', decide_false, Bool.false_eq_true, if_false, sub]
     have : D.repr.InRange (v - 1) ↔ ¬ (v - 1 < D.repr.lo) := by
       unfold Prim.InRange at *; constructor <;> intro hh <;> omega
     by_cases hh : v - 1 < D.repr.lo
@@ -299,6 +301,27 @@ theorem forRet_fromStrHoles (s : Name) (l : List (Int × Name)) :
     · simp only [hs, decide_false, Bool.false_eq_true, if_false]
       exact ih
 
+theorem decide_eq_comm {α} [DecidableEq α] (a b : α) : decide (a = b) = decide (b = a) :=
+  decide_eq_decide.mpr eq_comm
+
+/-- the same two loops with the comparison written the other way round (`*n == s`) -/
+theorem forRet_fromStrGapless' (h : D.WF) (s : Name) (l : List Name) (k : Nat) :
+    forRet (enumFrom k l) (fun x : Int × Name =>
+        if decide (x.2 = s) then
+          (transmute D (wrappingAdd D.repr (Rust.cast D.repr x.1) (Rust.cast D.repr (minC D)))).bind fun e1 => .ok (some (some e1))
+        else .ok none)
+      (fun _ => .ok none) = fromStrTableGaplessLoop D s k l := by
+  have := forRet_fromStrGapless D h s l k
+  simp only [decide_eq_comm s] at this
+  exact this
+
+theorem forRet_fromStrHoles' (s : Name) (l : List (Int × Name)) :
+    forRet l (fun x : Int × Name => if decide (x.2 = s) then .ok (some (some x.1)) else .ok none) (fun _ => .ok none)
+      = fromStrTableHolesLoop s l := by
+  have := forRet_fromStrHoles s l
+  simp only [decide_eq_comm s] at this
+  exact this
+
 theorem fromStrFn_eq (h : D.WF) (hm : md.fromStrFn ≠ .auto) (s : Name) :
     T.fromStrFn D tg md s = ET.fromStr D md.fromStrFn s := by
   unfold T.fromStrFn ET.fromStr
@@ -307,9 +330,15 @@ theorem fromStrFn_eq (h : D.WF) (hm : md.fromStrFn ≠ .auto) (s : Name) :
   · simp [T.fromStrFn_match, fromStr_match_aux]
   · cases hg : D.gapless
     · have := forRet_fromStrHoles s (List.zip (tableEnum D) (tableName D))
-      simpa [T.fromStrFn_table_holes, fromStrTableHoles] using this
+      have this' := forRet_fromStrHoles' s (List.zip (tableEnum D) (tableName D))
+      first
+        | simpa [T.fromStrFn_table_holes, fromStrTableHoles] using this
+        | simpa [T.fromStrFn_table_holes, fromStrTableHoles] using this'
     · have := forRet_fromStrGapless D h s (tableName D) 0
-      simpa [T.fromStrFn_table_gapless, fromStrTableGapless, enumerate] using this
+      have this' := forRet_fromStrGapless' D h s (tableName D) 0
+      first
+        | simpa [T.fromStrFn_table_gapless, fromStrTableGapless, enumerate] using this
+        | simpa [T.fromStrFn_table_gapless, fromStrTableGapless, enumerate] using this'
 
 theorem fromStrTrait_eq (h : D.WF) (hm : md.fromStrTrait ≠ .auto) (s : Name) :
     T.fromStrTrait D tg md s = ET.fromStr D md.fromStrTrait s := by
@@ -319,9 +348,15 @@ theorem fromStrTrait_eq (h : D.WF) (hm : md.fromStrTrait ≠ .auto) (s : Name) :
   · simp [T.fromStrTrait_match, fromStr_match_aux]
   · cases hg : D.gapless
     · have := forRet_fromStrHoles s (List.zip (tableEnum D) (tableName D))
-      simpa [T.fromStrTrait_table_holes, fromStrTableHoles] using this
+      have this' := forRet_fromStrHoles' s (List.zip (tableEnum D) (tableName D))
+      first
+        | simpa [T.fromStrTrait_table_holes, fromStrTableHoles] using this
+        | simpa [T.fromStrTrait_table_holes, fromStrTableHoles] using this'
     · have := forRet_fromStrGapless D h s (tableName D) 0
-      simpa [T.fromStrTrait_table_gapless, fromStrTableGapless, enumerate] using this
+      have this' := forRet_fromStrGapless' D h s (tableName D) 0
+      first
+        | simpa [T.fromStrTrait_table_gapless, fromStrTableGapless, enumerate] using this
+        | simpa [T.fromStrTrait_table_gapless, fromStrTableGapless, enumerate] using this'
 
 
 /-! ### iter(), names() -/
@@ -363,8 +398,9 @@ theorem iter_next_eq (hm : md.iter = .nextAndBack) (fwd bwd : Option Int) (n : N
   · simp [h0]
   · have hin : (ITy.usize.prim D tg).InRange ((n : Int) - 1) := (usize_inRange D tg _).mpr ⟨by omega, by omega⟩
     have hne : ¬ ((n : Int) = 0) := by omega
+    have hne' : ¬ ((0 : Int) = (n : Int)) := by omega
     have htn : Int.toNat ((n : Int) - 1) = n - 1 := by omega
-    simp only [h0, hne, decide_false, Bool.false_eq_true, if_false, sub, hin, if_true, Res.bind_ok, htn]
+    simp only [h0, hne, hne', decide_false, Bool.false_eq_true, if_false, sub, hin, if_true, Res.bind_ok, htn]
     rfl
 
 theorem iter_next_back_eq (hm : md.iter = .nextAndBack) (fwd bwd : Option Int) (n : Nat) (hn : (n : Int) ≤ usizeMax tg + 1) :
@@ -375,8 +411,9 @@ theorem iter_next_back_eq (hm : md.iter = .nextAndBack) (fwd bwd : Option Int) (
   · simp [h0]
   · have hin : (ITy.usize.prim D tg).InRange ((n : Int) - 1) := (usize_inRange D tg _).mpr ⟨by omega, by omega⟩
     have hne : ¬ ((n : Int) = 0) := by omega
+    have hne' : ¬ ((0 : Int) = (n : Int)) := by omega
     have htn : Int.toNat ((n : Int) - 1) = n - 1 := by omega
-    simp only [h0, hne, decide_false, Bool.false_eq_true, if_false, sub, hin, if_true, Res.bind_ok, htn]
+    simp only [h0, hne, hne', decide_false, Bool.false_eq_true, if_false, sub, hin, if_true, Res.bind_ok, htn]
     rfl
 
 theorem iter_len_eq (hm : md.iter = .nextAndBack) (fwd bwd : Option Int) (n : Nat) :
